@@ -184,6 +184,17 @@ def body(ctx, m):
     # exporting does not change what is exported: a second export of the same object is the same document
     x1b = ctx.must("export_raises", pl.to_pagexml_string, version=version)
     ctx.check(strip_ts(x1) == strip_ts(x1b), "second_export_of_same_layout_differs", lambda: "%s\n---\n%s" % (x1[:2000], x1b[:2000]))
+    if m["via"] == "file":
+        # saving to a file (to_pagexml) writes the document the string variant returns
+        fd, path = tempfile.mkstemp(suffix=".xml", prefix="verif-c01-")
+        os.close(fd)
+        try:
+            ctx.must("export_raises", pl.to_pagexml, path, version=version)
+            with open(path, encoding="utf-8") as f:
+                x1f = f.read()
+        finally:
+            os.unlink(path)
+        ctx.check(strip_ts(x1f) == strip_ts(x1), "file_export_differs_from_string_export", lambda: "%s\n---\n%s" % (x1f[:2000], x1[:2000]))
     l1 = ctx.must("import_raises", load, m, x1)
     order = expected_order(m)
     ctx.event("version:" + m["version"])
